@@ -61,18 +61,20 @@ type variant struct {
 	gap      uint64        // distance for gt1
 	chain    string        // the trusted header's chain id
 	other    string        // a different chain id (used when the input says the ids differ)
+	foreign  bool          // the untrusted header does not link to the trusted one (LastHeader is some other hash): whether a
+	// header at height+1 is "adjacent" is a matter of heights only; what the link is worth is the header type's verdict
 }
 
 func variants(thorough bool) []variant {
 	// the second quick variant differs from the first only in what "a different chain id" looks like: ids are compared
 	// as exact strings, so an id that differs in case only is a different chain
-	v := []variant{{100, -11 * time.Second, 5, "c", "other"}, {100, -11 * time.Second, 5, "mocha-4", "Mocha-4"}}
+	v := []variant{{100, -11 * time.Second, 5, "c", "other", false}, {100, -11 * time.Second, 5, "mocha-4", "Mocha-4", true}}
 	if thorough {
 		v = append(v,
-			variant{1, -time.Nanosecond, 2, "c", "C"},
-			variant{1 << 63, -10 * time.Second, 1 << 62, "kchain", "\u212achain"},
-			variant{^uint64(0) - 2, -time.Hour, 2, "c", "c "},
-			variant{7, -365 * 24 * time.Hour, 1000000, "c", "cc"},
+			variant{1, -time.Nanosecond, 2, "c", "C", false},
+			variant{1 << 63, -10 * time.Second, 1 << 62, "kchain", "\u212achain", true},
+			variant{^uint64(0) - 2, -time.Hour, 2, "c", "c ", false},
+			variant{7, -365 * 24 * time.Hour, 1000000, "c", "cc", true},
 		)
 	}
 	return v
@@ -113,7 +115,11 @@ func build01(in map[string]any, v variant, now time.Time, drift time.Duration) (
 	if !mbt.Bool(in, "chainEq") {
 		chain = v.other
 	}
-	u = &vh.Header{Chain: chain, H: uh, T: ut.UnixNano(), Prev: t.Hash(), TypeRes: mbt.Str(in, "typeRes")}
+	prev := t.Hash()
+	if v.foreign {
+		prev = (&vh.Header{Chain: "elsewhere", H: 1, T: 1}).Hash()
+	}
+	u = &vh.Header{Chain: chain, H: uh, T: ut.UnixNano(), Prev: prev, TypeRes: mbt.Str(in, "typeRes")}
 	if mbt.Bool(in, "tZero") {
 		t = nil
 	}
@@ -174,13 +180,25 @@ type obs02 struct {
 func build02(c map[string]any, now time.Time, drift time.Duration) (*vh.Header, []*vh.Header) {
 	base := now.Add(-time.Hour)
 	trusted := &vh.Header{Chain: "c", H: 100, T: base.UnixNano()}
+	tMax := mbt.Bool(c, "tMax") // the trusted header has the highest possible height: every height is known
+	if tMax {
+		trusted.H = ^uint64(0)
+	}
 	cur := trusted
 	var seq []*vh.Header
+	ahead := 0
 	for _, k := range mbt.Strs(c["seq"]) {
 		var e *vh.Header
 		switch k {
 		case "ok1":
 			e = &vh.Header{Chain: "c", H: cur.H + 1, T: cur.T + int64(time.Second), Prev: cur.Hash()}
+			if tMax && cur == trusted {
+				e.H = 5 // (a range that starts over at a small height)
+			}
+			cur = e
+		case "ahead": // hash-linked, adjacent, dated 8 s per element ahead of the local clock: only the first is within the allowed drift
+			ahead++
+			e = &vh.Header{Chain: "c", H: cur.H + 1, T: now.Add(time.Duration(8*ahead) * time.Second).UnixNano(), Prev: cur.Hash()}
 			cur = e
 		case "ok2":
 			e = &vh.Header{Chain: "c", H: cur.H + 2, T: cur.T + int64(time.Second), Prev: cur.Hash()}
